@@ -208,7 +208,7 @@ def check(ctx: Ctx, rep: Report):
                 if not fs:
                     continue
                 nfin += 1
-                tail = p.events[fs[-1]:]
+                tail = p.events[fs[0]:]      # nested finally blocks (async with <lock> around the try): any of them may close
                 closed = any(ev.kind == "call" and "close_transport" in tags(ev) for ev in tail)
                 kept = any(ev.kind == "test" and chain(ev.node) == ("self", "keep_alive") and ev.data is True for ev in tail)
                 if not closed and not kept:
